@@ -3,6 +3,10 @@ from . import checks
 
 
 def run(prop, tier, seed_, replay=None):
+    if prop == "C04" and not replay:
+        from . import c04prov
+
+        return c04prov.run(tier, seed_)
     if prop == "C18" and not replay:
         from . import c18
 
